@@ -1,6 +1,6 @@
 ENTRY = {
     "level": "proof",
-    "families": [fam("C26", 700, 40000)],
+    "families": [fam("C26", 700, 7000)],
     "gen_items": ["FrameBound", "rows_start", "rows_end", "frame_clip"],
     "rule": "family C26: SELECT <all columns>, <1-2 window calls> FROM t through ExecutionContext::sql over one generated table (0..60 rows, 1..5 columns over "
             "i64/i32/f64(dyadic)/str/date/bool, NULL density 0/10/50/100 %, alternately the generated batches and one batch); every supported function "
